@@ -171,37 +171,68 @@ func discharge(res *FuncResult, selected map[int]bool, timeoutMs int) {
 	if len(pending) == 0 {
 		return
 	}
-	script := batchScript(res, pending)
-	f := tmpFile("batch", script)
-	budget := time.Duration(timeoutMs*(len(pending)+2)) * time.Millisecond
-	if budget > 90*time.Second {
-		budget = 90 * time.Second // per-function cap: obligations not reached stay undecided
+	// incremental batches, in chunks run concurrently (large functions have hundreds of obligations)
+	var idxs []int
+	for i := range pending {
+		idxs = append(idxs, i)
 	}
-	ctx, cancel := context.WithTimeout(context.Background(), budget)
-	out, secs := runSolver(ctx, solvers[0], f, timeoutMs, true)
-	cancel()
-	os.Remove(f)
-	cur := -1
-	n := 0
-	for _, ln := range strings.Split(out, "\n") {
-		ln = strings.TrimSpace(ln)
-		if strings.HasPrefix(ln, "@@ ") || strings.HasPrefix(ln, "\"@@ ") {
-			ln = strings.Trim(ln, "\"")
-			cur, _ = strconv.Atoi(strings.TrimSpace(ln[3:]))
-			continue
-		}
-		if cur >= 0 && (ln == "sat" || ln == "unsat" || ln == "unknown" || ln == "timeout") {
-			o := res.Obls[cur]
-			o.Status = ln
-			o.Solver = solvers[0].name
-			n++
-			cur = -1
-		} else if cur >= 0 && strings.HasPrefix(ln, "(error") {
-			res.Obls[cur].Status = "error"
-			res.Obls[cur].Output = ln
-			cur = -1
-		}
+	sort.Ints(idxs)
+	chunk := 40
+	if len(idxs) > 320 {
+		chunk = (len(idxs) + 7) / 8
 	}
+	var cwg sync.WaitGroup
+	var secsMu sync.Mutex
+	secs := 0.0
+	for c := 0; c < len(idxs); c += chunk {
+		end := c + chunk
+		if end > len(idxs) {
+			end = len(idxs)
+		}
+		part := map[int]bool{}
+		for _, i := range idxs[c:end] {
+			part[i] = true
+		}
+		cwg.Add(1)
+		go func(part map[int]bool) {
+			defer cwg.Done()
+			solverSem <- struct{}{}
+			defer func() { <-solverSem }()
+			script := batchScript(res, part)
+			f := tmpFile("batch", script)
+			budget := time.Duration(timeoutMs*(len(part)+2)) * time.Millisecond
+			if budget > 90*time.Second {
+				budget = 90 * time.Second // per-chunk cap: obligations not reached stay undecided
+			}
+			ctx, cancel := context.WithTimeout(context.Background(), budget)
+			out, s1 := runSolver(ctx, solvers[0], f, timeoutMs, true)
+			cancel()
+			os.Remove(f)
+			secsMu.Lock()
+			secs += s1
+			secsMu.Unlock()
+			cur := -1
+			for _, ln := range strings.Split(out, "\n") {
+				ln = strings.TrimSpace(ln)
+				if strings.HasPrefix(ln, "@@ ") || strings.HasPrefix(ln, "\"@@ ") {
+					ln = strings.Trim(ln, "\"")
+					cur, _ = strconv.Atoi(strings.TrimSpace(ln[3:]))
+					continue
+				}
+				if cur >= 0 && (ln == "sat" || ln == "unsat" || ln == "unknown" || ln == "timeout") {
+					o := res.Obls[cur]
+					o.Status = ln
+					o.Solver = solvers[0].name
+					cur = -1
+				} else if cur >= 0 && strings.HasPrefix(ln, "(error") {
+					res.Obls[cur].Status = "error"
+					res.Obls[cur].Output = ln
+					cur = -1
+				}
+			}
+		}(part)
+	}
+	cwg.Wait()
 	per := secs / float64(len(pending))
 	var retry []int
 	for i := range pending {
@@ -239,6 +270,25 @@ var solverSem = make(chan struct{}, 16)
 
 func portfolio(res *FuncResult, i int, timeoutMs int) {
 	o := res.Obls[i]
+	// stragglers get four times the batch timeout: results must not flip near the limit
+	timeoutMs *= 4
+	// first a goal-directed slice (sound for "unsat" only), with two neighbourhood sizes
+	if len(res.Script) > 400 {
+		for _, rounds := range []int{2, 4} {
+			sf := tmpFile("slice", slicedScript(res, i, rounds))
+			solverSem <- struct{}{}
+			c0, cancel0 := context.WithTimeout(context.Background(), time.Duration(timeoutMs/2+1000)*time.Millisecond)
+			out, secs := runSolver(c0, solvers[0], sf, timeoutMs/2, false)
+			cancel0()
+			<-solverSem
+			os.Remove(sf)
+			if strings.HasPrefix(strings.TrimSpace(out), "unsat") {
+				o.Status, o.Solver, o.Secs = "unsat", solvers[0].name+" (sliced)", secs
+				cachePut(singleScript(res, i, false), o.Solver)
+				return
+			}
+		}
+	}
 	script := singleScript(res, i, true)
 	f := tmpFile("q", script)
 	defer os.Remove(f)
